@@ -6,6 +6,7 @@ package main
 
 import (
 	"goa.design/goa/v3/expr"
+	"reflect"
 )
 
 type collected struct {
@@ -270,16 +271,10 @@ func mutate(class string, c *collected) int {
 			n++
 		}
 	case "default-edit-in-place":
+		// every element that can be written in place, at every depth, generic trees and typed values alike
 		for _, a := range c.atts {
-			switch d := a.DefaultValue.(type) {
-			case []any:
-				if len(d) > 0 {
-					d[0] = "mut"
-					n++
-				}
-			case map[string]any:
-				d["mut"] = "mut"
-				n++
+			if a.DefaultValue != nil {
+				n += editInPlace(reflect.ValueOf(a.DefaultValue), 0)
 			}
 		}
 	case "description":
@@ -339,6 +334,75 @@ func mutate(class string, c *collected) int {
 		}
 		for _, a := range c.vatts {
 			a.Description = "mut"
+		}
+	}
+	return n
+}
+
+// editInPlace writes into everything reachable from a default value WITHOUT replacing the value itself: slice
+// elements (strings and numbers are overwritten, interface elements that hold scalars too), map entries (one
+// added, slices and maps held as values edited through their own storage). Returns the number of writes.
+func editInPlace(v reflect.Value, depth int) int {
+	if depth > 8 || !v.IsValid() {
+		return 0
+	}
+	n := 0
+	switch v.Kind() {
+	case reflect.Interface, reflect.Pointer:
+		if !v.IsNil() {
+			n += editInPlace(v.Elem(), depth+1)
+		}
+	case reflect.Slice:
+		for i := 0; i < v.Len(); i++ {
+			e := v.Index(i)
+			switch e.Kind() {
+			case reflect.String:
+				e.SetString("mut")
+				n++
+			case reflect.Float64, reflect.Float32:
+				e.SetFloat(-4242)
+				n++
+			case reflect.Int, reflect.Int64, reflect.Int32:
+				e.SetInt(-4242)
+				n++
+			case reflect.Interface:
+				if !e.IsNil() {
+					switch e.Elem().Kind() {
+					case reflect.Slice, reflect.Map:
+						n += editInPlace(e.Elem(), depth+1)
+					default:
+						e.Set(reflect.ValueOf("mut"))
+						n++
+					}
+				}
+			default:
+				n += editInPlace(e, depth+1)
+			}
+		}
+	case reflect.Map:
+		if v.IsNil() {
+			return 0
+		}
+		for _, k := range v.MapKeys() {
+			e := v.MapIndex(k)
+			if e.Kind() == reflect.Interface && !e.IsNil() {
+				e = e.Elem()
+			}
+			if e.Kind() == reflect.Slice || e.Kind() == reflect.Map {
+				n += editInPlace(e, depth+1)
+			}
+		}
+		if v.Type().Key().Kind() == reflect.String {
+			switch v.Type().Elem().Kind() {
+			case reflect.Interface, reflect.String:
+				v.SetMapIndex(reflect.ValueOf("mut").Convert(v.Type().Key()), reflect.ValueOf("mut").Convert(v.Type().Elem()))
+				n++
+			case reflect.Slice:
+				if v.Type().Elem().Elem().Kind() == reflect.String {
+					v.SetMapIndex(reflect.ValueOf("mut").Convert(v.Type().Key()), reflect.ValueOf([]string{"mut"}).Convert(v.Type().Elem()))
+					n++
+				}
+			}
 		}
 	}
 	return n
